@@ -116,6 +116,18 @@ def mutate(r, g, insts, per_class=2):
                                 cands.append(("wrong_kind_element", "%s.%s (nested aggregate of %s) inner element := %s" % (owner, an, kind_of(at[1][1]), badv),
                                               with_toks(toks[:j] + [badv] + toks[j + 1:]), iid, False))
                     # a reference to an instance that does not exist, held by a SELECT attribute or by an aggregate of selects
+                    # a malformed or ill-typed literal inside the typed parameter of a SELECT (and of an element of a list of them)
+                    sel_members = at[1] if kind == "KSelect" else (at[1][1] if kind == "KAggregate" and isinstance(at[1], tuple) and at[1][0] == "select" else None)
+                    if sel_members and toks[a] != "$":
+                        kws_ = [m_[0] for m_ in sel_members if m_[0]]
+                        for bad_, why_ in ((["LENGTH_MEASURE", "(", "2", ")"], "an integer for a REAL"), (["COUNT_MEASURE", "(", "12abc", ")"], "letters after an INTEGER"),
+                                           (["COUNT_MEASURE", "(", "7.5", ")"], "a real for an INTEGER"), (["LABEL", "(", "12", ")"], "an integer for a STRING"),
+                                           (["LENGTH_MEASURE", "(", "'x'", ")"], "a string for a REAL"), (["LENGTH_MEASURE", "(", ".5", ")"], "a REAL without digits before the point"),
+                                           (["RATIO_MEASURE", "(", ".T.", ")"], "an enumeration for a NUMBER"), (["COUNT_MEASURE", "(", ")"], "no value")):
+                            if bad_[0] in kws_:
+                                newv_ = bad_ if kind == "KSelect" else ["("] + bad_ + [")"]
+                                cands.append(("typed_param_bad_literal", "%s.%s (%s) := %s: %s" % (owner, an, kind, "".join(bad_), why_),
+                                              with_toks(toks[:a] + newv_ + toks[b:]), iid, False))
                     if kind == "KSelect" and any(m_[0] is None for m_ in at[1]):
                         cands.append(("dangling_reference", "%s.%s (KSelect) := #999999" % (owner, an), with_toks(toks[:a] + ["#999999"] + toks[b:]), iid, False))
                     if kind == "KAggregate" and isinstance(at[1], tuple) and at[1][0] == "select" and any(m_[0] is None for m_ in at[1][1]):
@@ -216,6 +228,8 @@ def mutate(r, g, insts, per_class=2):
             key = c[0] + " " + c[1].split(" (", 1)[1]        # "<kind>) := <bad value>", optional and required apart
         if c[0] in ("too_few_params", "too_many_params") and c[1].split(":")[0] in ("DCARRIER", "LCARRIER", "SI_B", "DPOINT"):
             key = c[0] + " " + c[1].split(":")[0]                # classes with redefining or derived attributes: own path through the attribute loop
+        if c[0] == "typed_param_bad_literal":
+            key = c[0] + " " + c[1].split(" := ")[1] + (" agg" if "KAggregate" in c[1] else "")      # each literal, in an attribute and in a list
         if c[0] in ("unknown_part", "duplicate_part"):
             key = c[0] + " " + c[1]                              # each place of the odd part is its own class
         if c[1].startswith("complex part"):
